@@ -151,6 +151,33 @@ static bool check_reuse(uint64_t v) {
         (unsigned long long)v, n1, p1, c1, (unsigned long long)d1, l1, (unsigned long long)w, n2, p2, c2, (unsigned long long)d2, l2);
   return true;
 }
+// Over-long (zero-padded) encodings for decode: the standard encoding of v with the continuation bit set on its last byte,
+// followed by pad-1 bytes 0x80 and a final 0x00.  In base 128 this still denotes v.  A decoder may refuse it (return 0) -
+// the statement does not promise that it decodes - but if it reports success, value and length must be the base-128 ones.
+static bool check_overlong(uint64_t v, int pad) {
+  uint8_t buf[16];
+  memset(buf, 0, sizeof buf);
+  unsigned l = ref_varint(v, buf);
+  if (pad < 1 || l + (unsigned)pad > 10) return true;
+  buf[l - 1] |= 0x80;
+  for (int i = 0; i < pad - 1; i++) buf[l + (unsigned)i] = 0x80;
+  buf[l + (unsigned)pad - 1] = 0x00;
+  unsigned total = l + (unsigned)pad;
+  uint64_t d64 = 0x1111;
+  unsigned c64 = mtbl_varint_decode64(buf, &d64);
+  if (c64 != 0 && (c64 != total || d64 != v))
+    BAD("mtbl_varint_decode64 of the %u-byte zero-padded encoding of %llu reported success with value %llu, length %u (base-128 value %llu, length %u)", total,
+        (unsigned long long)v, (unsigned long long)d64, c64, (unsigned long long)v, total);
+  if (v <= 0xFFFFFFFFull && total <= 5) {
+    uint32_t d32 = 0x1111;
+    unsigned c32 = mtbl_varint_decode32(buf, &d32);
+    if (c32 != 0 && (c32 != total || d32 != (uint32_t)v))
+      BAD("mtbl_varint_decode32 of the %u-byte zero-padded encoding of %llu reported success with value %u, length %u", total, (unsigned long long)v, d32, c32);
+  }
+  unsigned lp = mtbl_varint_length_packed(buf, 10);
+  if (lp != 0 && lp != total) BAD("mtbl_varint_length_packed of the %u-byte zero-padded encoding of %llu = %u", total, (unsigned long long)v, lp);
+  return true;
+}
 // over-long / unterminated runs: v = number of continuation bytes
 static bool check_packed(uint64_t k) {
   // k continuation bytes followed by a terminator; beyond 9 continuation bytes the byte string is no valid 64-bit varint
@@ -191,6 +218,7 @@ static bool check_one(const Case &c) {
   if (c.what == "fixed64") return check_fixed64(c.v, c.align);
   if (c.what == "packed") return check_packed(c.v);
   if (c.what == "reuse") return check_reuse(c.v);
+  if (c.what == "overlong") return check_overlong(c.v, 1 + c.align % 8);
   return true;
 }
 static Result run_case(const Case &c) {
@@ -201,7 +229,7 @@ static Result run_case(const Case &c) {
 }
 static Case gen_case() {
   Case c;
-  c.what = one_of<std::string>({"v32", "v64", "fixed32", "fixed64", "packed", "reuse"});
+  c.what = one_of<std::string>({"v32", "v64", "fixed32", "fixed64", "packed", "reuse", "overlong"});
   int bits = pick(0, 64);
   uint64_t v = ((uint64_t)pick_u32() << 32) | pick_u32();
   c.v = bits == 0 ? 0 : bits == 64 ? v : (v & ((1ull << bits) - 1)) | (1ull << (bits - 1));
@@ -247,6 +275,7 @@ static int extra_modes(const WorkerOpts &o, Stats &stats) {
         CHECK("v64", v, 0, check_v64(v));
         CHECK("v32", (uint32_t)v, 0, check_v32((uint32_t)v));
         CHECK("reuse", v, 0, check_reuse(v));
+        for (int pad = 1; pad <= 8; pad++) CHECK("overlong", v, pad - 1, check_overlong(v, pad));
         if (v >= 128) n_multi++;
         for (int al = 0; al < 8; al++) {
           CHECK("fixed32", (uint32_t)v, al, check_fixed32((uint32_t)v, al));
@@ -274,6 +303,7 @@ static int extra_modes(const WorkerOpts &o, Stats &stats) {
       CHECK("v32", w32, 0, check_v32(w32));
       if ((i & 15) == 0) {
         CHECK("reuse", w, 0, check_reuse(w));
+        CHECK("overlong", w, (int)(idx % 8), check_overlong(w, 1 + (int)(idx % 8)));
         int al = (int)(idx % 8);
         CHECK("fixed32", v32, al, check_fixed32(v32, al));
         CHECK("fixed64", v64, al, check_fixed64(v64, al));
